@@ -38,6 +38,7 @@ import Fcgi.Props.C07NoFuel
 import Fcgi.Props.C07Echo2
 import Fcgi.Props.C07NoFuel2
 import Fcgi.Props.C07Echo3
+import Fcgi.Props.C07NoFuel3
 import Fcgi.Props.C08
 import Fcgi.Props.C08Inv
 import Fcgi.Props.C08Replies
@@ -78,6 +79,7 @@ import Fcgi.Props.C12Fuel
 import Fcgi.Props.C12Unbounded
 import Fcgi.Props.C12Chain
 import Fcgi.Props.C12NoFuel
+import Fcgi.Props.C12Chain2
 import Fcgi.Props.C13
 import Fcgi.Props.C13Conn
 import Fcgi.Props.C14b
@@ -94,6 +96,7 @@ import Fcgi.Props.C16
 import Fcgi.Props.C17
 import Fcgi.Props.C18
 import Fcgi.Props.C18Held
+import Fcgi.Props.C18None
 import Fcgi.Props.C19
 import Fcgi.Props.C20
 
@@ -129,8 +132,8 @@ requests) and from the echo Responder (C07 Clauses 21, 23, 25, 26) and the Filte
 (`C11NoFuel`), C12 Clauses 1, 5, 9, 10 (`C12NoFuel`: Responder EOF / failure at any offset, write error, read error at
 any index) and C14 Clauses 1–2 (`C14NoFuel`).  It REMAINS, as an artefact of the proofs only (removable by the recipe of
 `Proofs/E2ENoFuel.lean`), in: C07 Clause 8 (`wcost |data| + 8 ≤ 1000`), 10–12 (`2·n + …`: the number of
-`fill_buf`/`consume` rounds), 13–20 (`wcostAll W` / `fcost W`: writes, flushes, output records); the follow-up requests
-`Sent.OKu` of C11 Clauses 1, 6, 9; C12 Clauses 2, 3 (Filter / Authorizer any-offset) and 12–13 (chain: `UReq.OKu` and the
+`fill_buf`/`consume` rounds), 15–20 (`fcost W`: writes, flushes, output records; 13–14 lost it in `C07NoFuel3`); the follow-up requests
+`Sent.OKu` of C11 Clauses 1, 6, 9; C12 Clauses 2, 3 (Filter / Authorizer any-offset) and 12–15 (chain: `UReq.OKu` and, in 12–13, the
 last request's `hhf`).
 `C11Clause7` is the `_anysize` table of
 `Props/C11FilterAnysize.lean` (no `|Stdin wire| ≤ 31000`).
@@ -1507,22 +1510,23 @@ end Fcgi.Headline
   `Props/C07Writers.lean` … `C07Writers4.lean`; 17–18, 20: a Filter), the echo Responder — writes
   interleaved with reads (Clauses 21–22, `Props/C07Echo.lean`).  All e2e clauses are size-free: no bound on
   the wire length or the buffer.  MODEL FUEL: since the model's handler fuel pays for what is left of the
-  handler script (`Props/C07ScriptFuel.lean`), Clauses 1–4 (`Props/C07NoFuel.lean`), 6 and 21–26 have NO
-  fuel hypothesis; in the other clauses `hhf` is still in the statement but is now an artefact of their
+  handler script (`Props/C07ScriptFuel.lean`), Clauses 1–4 (`Props/C07NoFuel.lean`), 6, 13–14 and 21–26 have
+  NO fuel hypothesis; in the other clauses `hhf` is still in the statement but is now an artefact of their
   PROOFS only (removable by the recipe of `Proofs/E2ENoFuel.lean`): `wcost |data| + c ≤ 1000` (Clause 8;
   Clause 6 is the `_nofuel` version of `Props/C07NoFuel2.lean`), the number of `fill_buf`/`consume` rounds
   `2·n + …` (Clauses 10–12; Clause 10 also needs `|content| ≤ n`), the number of writes, flushes and output
-  records `wcostAll W` / `fcost W` (Clauses 13–20).  Clauses 15–20 also need `hfl` (no error among the flush
-  answers); Clauses 15 and 17 also need `hmore` (later scripts propagate errors; forced by the proof — in
-  the chain theorems of Clauses 16 and 18 it holds by construction); Clauses 19–20 are Clauses 15 and 17
-  WITHOUT `hmore` (`E2E.stepConn_fs`).  Clause 21: reads of ONE byte (`m = 1`: the unrolled script is then
-  independent of the transport's chunking) and `hquiet` (the noise inside Stdin owes no reply); Clauses
-  23–24 (`Props/C07Echo2.lean`, ledger `Proofs/E2ELedger`) remove `hquiet`: the log is then an interleaving
-  of replies and handler records (not stated: that no reply RECORD is cut by a handler record).  Clauses
-  25–26 (`Props/C07Echo3.lean`) add what the reads RETURNED — the write-log conclusions of Clauses 21 and 23
-  alone would also hold if every `read(1)` returned garbage, because the model's scripts carry their write
-  data —: the read events `r=1:<b>` (one per content byte, in order) and `r=0:-` are an in-order sublist of
-  the trace (not proved: that no other `r=` event occurs).
+  records `fcost W` (Clauses 15–20; Clauses 13–14 are the `_nofuel` versions of `Props/C07NoFuel3.lean`).
+  Clauses 15–20 also need `hfl` (no error among the flush answers); Clauses 15 and 17 also need `hmore`
+  (later scripts propagate errors; forced by the proof — in the chain theorems of Clauses 16 and 18 it holds
+  by construction); Clauses 19–20 are Clauses 15 and 17 WITHOUT `hmore` (`E2E.stepConn_fs`).  Clause 21:
+  reads of ONE byte (`m = 1`: the unrolled script is then independent of the transport's chunking) and
+  `hquiet` (the noise inside Stdin owes no reply); Clauses 23–24 (`Props/C07Echo2.lean`, ledger
+  `Proofs/E2ELedger`) remove `hquiet`: the log is then an interleaving of replies and handler records (not
+  stated: that no reply RECORD is cut by a handler record).  Clauses 25–26 (`Props/C07Echo3.lean`) add what
+  the reads RETURNED — the write-log conclusions of Clauses 21 and 23 alone would also hold if every
+  `read(1)` returned garbage, because the model's scripts carry their write data —: the read events
+  `r=1:<b>` (one per content byte, in order) and `r=0:-` are an in-order sublist of the trace (not proved:
+  that no other `r=` event occurs).
 
 **The conjuncts of `C07_headline`.**
 1. `C07E.single_request_e2e_nofuel` — Responder, canonical handler, any benign transport, ANY wire length:
@@ -1547,10 +1551,10 @@ end Fcgi.Headline
    bound
 12. `C07B.bufread_part_e2e_unbounded` — a handler that consumes only part of what `fill_buf` showed, no size
    bound
-13. `C07W.single_request_writers_e2e` — TWO writers (Stdout, Stderr), ANY sequence of `write_all`s (empty,
-   or longer than 65 535 bytes = several records): every write is on the wire exactly once, in script order,
-   records never interleaved; no size bound
-14. `C07W.writers_chain_e2e` — … and with KEEP_CONN the connection then serves the following requests
+13. `C07W.single_request_writers_e2e_nofuel` — TWO writers (Stdout, Stderr), ANY sequence of `write_all`s
+   (empty, or longer than 65 535 bytes = several records): every write is on the wire exactly once, in script
+   order, records never interleaved; no size bound
+14. `C07W.writers_chain_e2e_nofuel` — … and with KEEP_CONN the connection then serves the following requests
 15. `C07W.single_request_writers_flush_e2e` — … with `flush` calls anywhere in the script and arbitrary
    Pending/Ok flush answers: a flush contributes no byte
 16. `C07W.writers_flush_chain_e2e` — … chain step of the flush variant
@@ -1902,7 +1906,7 @@ end
 section
 namespace Fcgi.C07W
 open Fcgi Fcgi.Req Fcgi.Str Fcgi.Async Fcgi.Run Fcgi.Spec Fcgi.E2E Fcgi.C07E Fcgi.C07U Fcgi.C07B
-/-- TWO writers (Stdout, Stderr), ANY sequence of `write_all`s (empty, or longer than 65 535 bytes = several records): every write is on the wire exactly once, in script order, records never interleaved; no size bound  (= `Fcgi.C07W.single_request_writers_e2e`, `Props/C07Writers.lean`) -/
+/-- TWO writers (Stdout, Stderr), ANY sequence of `write_all`s (empty, or longer than 65 535 bytes = several records): every write is on the wire exactly once, in script order, records never interleaved; no size bound  (= `Fcgi.C07W.single_request_writers_e2e_nofuel`, `Props/C07NoFuel3.lean`) -/
 def C07Clause13 : Prop :=
   ∀ {p : Preamble} {recs : List Rec} {content : Bytes} {srecs : List Rec}
     {b mc : Nat} {W : WList} {st : ExitStatus} {more : List (List HOp × Bool)} {t : Transport} {fuel : Nat}
@@ -1911,8 +1915,7 @@ def C07Clause13 : Prop :=
     (hnoise : NoiseFits (alignedBufsize b) recs)
     (hs : StreamRecs p.id 5 content srecs) (hsn : NoiseFits (alignedBufsize b) srecs)
     (hin : t.input = serAll recs ++ serAll srecs) (hben : Ben t) (hev : hsCount t.events = 0)
-    (hfuel : t.rd.length + t.wr.length + 1 ≤ fuel)
-    (hhf : wcostAll W + 20 ≤ 1000),
+    (hfuel : t.rd.length + t.wr.length + 1 ≤ fuel),
     ∃ c' fin O₁ O₂ pad res,
       runTask fuel (connS b mc t ((wscript W st, true) :: more)) 0 none = (c', fin) ∧
       O₁ ++ O₂ = owedStream p.id 5 mc srecs ∧
@@ -1920,7 +1923,7 @@ def C07Clause13 : Prop :=
 
 theorem C07Clause13_holds : C07Clause13 := by
   unfold C07Clause13
-  exact @single_request_writers_e2e
+  exact @single_request_writers_e2e_nofuel
 
 end Fcgi.C07W
 end
@@ -1928,7 +1931,7 @@ end
 section
 namespace Fcgi.C07W
 open Fcgi Fcgi.Req Fcgi.Str Fcgi.Async Fcgi.Run Fcgi.Spec Fcgi.E2E Fcgi.C07E Fcgi.C07U Fcgi.C07B
-/-- … and with KEEP_CONN the connection then serves the following requests  (= `Fcgi.C07W.writers_chain_e2e`, `Props/C07Writers.lean`) -/
+/-- … and with KEEP_CONN the connection then serves the following requests  (= `Fcgi.C07W.writers_chain_e2e_nofuel`, `Props/C07NoFuel3.lean`) -/
 def C07Clause14 : Prop :=
   ∀ {p : Preamble} {recs : List Rec} {content : Bytes} {srecs : List Rec}
     {b mc : Nat} {W : WList} {st : ExitStatus} (x : UReq) (xs : List UReq) {t : Transport} {fuel : Nat}
@@ -1938,8 +1941,7 @@ def C07Clause14 : Prop :=
     (hs : StreamRecs p.id 5 content srecs) (hsn : NoiseFits (alignedBufsize b) srecs)
     (hok : ∀ y ∈ x :: xs, y.OKu b)
     (hin : t.input = serAll recs ++ serAll srecs) (hben : Ben t) (hem : t.endMode = .pend)
-    (hev : hsCount t.events = 0) (hfuel : t.rd.length + t.wr.length + 1 ≤ fuel)
-    (hhf : wcostAll W + 20 ≤ 1000),
+    (hev : hsCount t.events = 0) (hfuel : t.rd.length + t.wr.length + 1 ≤ fuel),
     ∃ c' O₁ O₂ A,
       closedLoop fuel ((x :: xs).map UReq.wire)
         (connS b mc t ((wscript W st, true) :: (x :: xs).map UReq.handler)) 0 = (c', "STALL") ∧
@@ -1954,7 +1956,7 @@ def C07Clause14 : Prop :=
 
 theorem C07Clause14_holds : C07Clause14 := by
   unfold C07Clause14
-  exact @writers_chain_e2e
+  exact @writers_chain_e2e_nofuel
 
 end Fcgi.C07W
 end
@@ -3775,6 +3777,11 @@ end Fcgi.Headline
    segments ++ byte prefix of the last answer
 13. `C12E.read_err_in_last_request_e2e` — … and the transport FAILS at that offset: RET, same log and
    handler count as the EOF run
+14. `C12E.write_error_in_last_request_e2e` — k complete keep-alive requests, then one more whose i-th WRITE
+   answer (answer n+i of the script, n = what the first k consumed) fails: never reached (answered completely)
+   or RET, log = k segments ++ byte prefix of the last answer, nothing written after the failing call; GAP: the
+   fault is inserted at the hand-over (the prefix is run on the benign script)
+15. `C12E.read_error_in_last_request_at_index_e2e` — … the same for the i-th READ answer of the last request
 
 **Modelling assumptions (obligations.json).**
 * handlerPoll fuel is proved sufficient for scripts without read-to-end loops (a harness-script bound, not a
@@ -3790,12 +3797,15 @@ end Fcgi.Headline
 * OPEN: `prefix_wellformed_full` for `max_conns ≥ 2^64` (outside the code's usize)
 * single request, canonical handlers in the e2e clauses; faults in the LAST request of a keep-alive chain:
   Clauses 12–13 (`Props/C12Chain.lean`: EOF / transport failure at any byte offset; hypotheses: the k
-  earlier requests `UReq.OKu`, the last of them leaving nothing unread, cut strictly inside the wire); STILL
-  OPEN on connections with k > 1 requests: faults addressed by ANSWER index (an erroring read / a failing
-  write at a given read/write call of the last request — `Waiting` does not expose the remaining answer
-  scripts), write faults in a chain, faults in a request that is not the last; read errors during `close()`
-  (poll level: `C12E2E8`); these are carried by the differential run (`corpus/C12_e2e_chain.txt` included);
-  termination of the real task is observed by the wake-accurate executor
+  earlier requests `UReq.OKu`, the last of them leaving nothing unread, cut strictly inside the wire);
+  faults addressed by ANSWER index in the last request (a failing write / an erroring read at the i-th write
+  / read call of the last request): Clauses 14–15 (`Props/C12Chain2.lean`; `runTask_suf`/`runTask_rl`: the
+  scripts left after a run are suffixes of the original ones) — with the stated GAP that the fault is
+  inserted at the hand-over: the prefix is run on the benign script, that it runs the same with the bad
+  answer already in the script is not proved; STILL OPEN on connections with k > 1 requests: that gap,
+  faults in a request that is not the last; read errors during `close()` (poll level: `C12E2E8`); these are
+  carried by the differential run (`corpus/C12_e2e_chain.txt` included); termination of the real task is
+  observed by the wake-accurate executor
 
 -/
 
@@ -4189,6 +4199,71 @@ theorem C12Clause13_holds : C12Clause13 := by
 end Fcgi.C12E
 end
 
+section
+namespace Fcgi.C12E
+open Fcgi Fcgi.Req Fcgi.Str Fcgi.Async Fcgi.Run Fcgi.Spec Fcgi.E2E Fcgi.C07E Fcgi.C07U Fcgi.C12Inv Fcgi.Indep3 Fcgi.EofErr
+/-- k complete keep-alive requests, then one more whose i-th WRITE answer (answer n+i of the script, n = what the first k consumed) fails: never reached (answered completely) or RET, log = k segments ++ byte prefix of the last answer, nothing written after the failing call; GAP: the fault is inserted at the hand-over (the prefix is run on the benign script)  (= `Fcgi.C12E.write_error_in_last_request_e2e`, `Props/C12Chain2.lean`) -/
+def C12Clause14 : Prop :=
+  ∀ {b mc : Nat} (x : UReq) (xs : List UReq) (y : UReq) {t : Transport} {fuel : Nat}
+    (i : Nat) (bad : WrAns) (post : List WrAns) (hbad : bad = .err ∨ bad = .zero)
+    (hok : ∀ z ∈ x :: xs, z.OKu b) (hoky : y.OKu b) (hleft : ((x :: xs).getLast (by simp)).left = [])
+    (hin : t.input = x.wire) (hben : Ben t) (hem : t.endMode = .pend) (hev : hsCount t.events = 0)
+    (hfuel : t.rd.length + t.wr.length + 1 ≤ fuel),
+    ∃ c₁ A n,
+      -- the first `k` requests: served, the task parked; they consumed the first `n` write answers
+      closedLoop fuel (xs.map UReq.wire) (connS b mc t ((x :: xs).map UReq.handler ++ [y.handler])) 0 = (c₁, "STALL") ∧
+      SegsAll mc (x :: xs) A ∧ c₁.env.tr.wlog = t.wlog ++ A ∧ hsCount c₁.env.tr.events = (x :: xs).length ∧
+      c₁.env.tr.wr = t.wr.drop n ∧ n + c₁.env.tr.wr.length = t.wr.length ∧
+      -- the last request, its `i`-th own write answer failing
+      ∃ c' fin Ay, runTask fuel (feedW c₁ y.wire ((t.wr.drop n).take i ++ bad :: post)) 0 none = (c', fin) ∧
+        y.Seg mc Ay ∧
+        ((fin = "STALL" ∧ c'.env.tr.wlog = t.wlog ++ A ++ Ay ∧ hsCount c'.env.tr.events = (x :: xs).length + 1 ∧
+            ∃ rest, c'.env.tr.wr = rest ++ bad :: post) ∨
+         (fin = "RET" ∧ c'.phase = .finished ∧
+          (∃ w, c'.env.tr.wlog = t.wlog ++ A ++ w ∧ w <+: Ay) ∧
+          (x :: xs).length ≤ hsCount c'.env.tr.events ∧ hsCount c'.env.tr.events ≤ (x :: xs).length + 1 ∧
+          (∃ e inH, WrErrOf bad e ∧ (inH = true → ∃ evs, c'.env.tr.events = evs ++ [handlerErrEv e])) ∧
+          (∃ t1 t2, Clean (feedW c₁ y.wire ((t.wr.drop n).take i ++ bad :: post)).env.tr t1 ∧ FailCall t1 t2 ∧
+            WSame t2 c'.env.tr ∧ c'.env.tr.wlog = t1.wlog)))
+
+theorem C12Clause14_holds : C12Clause14 := by
+  unfold C12Clause14
+  exact @write_error_in_last_request_e2e
+
+end Fcgi.C12E
+end
+
+section
+namespace Fcgi.C12E
+open Fcgi Fcgi.Req Fcgi.Str Fcgi.Async Fcgi.Run Fcgi.Spec Fcgi.E2E Fcgi.C07E Fcgi.C07U Fcgi.C12Inv Fcgi.Indep3 Fcgi.EofErr
+/-- … the same for the i-th READ answer of the last request  (= `Fcgi.C12E.read_error_in_last_request_at_index_e2e`, `Props/C12Chain2.lean`) -/
+def C12Clause15 : Prop :=
+  ∀ {b mc : Nat} (x : UReq) (xs : List UReq) (y : UReq) {t : Transport}
+    {fuel : Nat} (i : Nat) (post : List RdAns)
+    (hok : ∀ z ∈ x :: xs, z.OKu b) (hoky : y.OKu b) (hleft : ((x :: xs).getLast (by simp)).left = [])
+    (hin : t.input = x.wire) (hben : Ben t) (hem : t.endMode = .pend) (hev : hsCount t.events = 0)
+    (hfuel : t.rd.length + t.wr.length + 1 ≤ fuel),
+    ∃ c₁ A n,
+      closedLoop fuel (xs.map UReq.wire) (connS b mc t ((x :: xs).map UReq.handler ++ [y.handler])) 0 = (c₁, "STALL") ∧
+      SegsAll mc (x :: xs) A ∧ c₁.env.tr.wlog = t.wlog ++ A ∧ hsCount c₁.env.tr.events = (x :: xs).length ∧
+      c₁.env.tr.rd = t.rd.drop n ∧ n + c₁.env.tr.rd.length = t.rd.length ∧
+      ∃ c' fin Ay, runTask fuel (feedR c₁ y.wire ((t.rd.drop n).take i ++ .err :: post)) 0 none = (c', fin) ∧
+        y.Seg mc Ay ∧
+        ((fin = "STALL" ∧ c'.env.tr.wlog = t.wlog ++ A ++ Ay ∧ hsCount c'.env.tr.events = (x :: xs).length + 1 ∧
+            ∃ rest, c'.env.tr.rd = rest ++ .err :: post) ∨
+         (fin = "RET" ∧ c'.phase = .finished ∧
+          (∃ w, c'.env.tr.wlog = t.wlog ++ A ++ w ∧ w <+: Ay) ∧
+          (x :: xs).length ≤ hsCount c'.env.tr.events ∧ hsCount c'.env.tr.events ≤ (x :: xs).length + 1 ∧
+          (∃ e inH, (e = .connectionAborted ∨ e = .transportRead) ∧
+            (inH = true → ∃ evs, c'.env.tr.events = evs ++ [handlerErrEv e]))))
+
+theorem C12Clause15_holds : C12Clause15 := by
+  unfold C12Clause15
+  exact @read_error_in_last_request_at_index_e2e
+
+end Fcgi.C12E
+end
+
 namespace Fcgi.Headline
 /-- **C12** — see the section comment above for the clause-by-clause reading. -/
 theorem C12_headline :
@@ -4204,8 +4279,10 @@ theorem C12_headline :
     Fcgi.C12E.C12Clause10 ∧
     Fcgi.C12E.C12Clause11 ∧
     Fcgi.C12E.C12Clause12 ∧
-    Fcgi.C12E.C12Clause13 :=
-  ⟨Fcgi.C12E.C12Clause1_holds, Fcgi.C12E.C12Clause2_holds, Fcgi.C12E.C12Clause3_holds, Fcgi.C12E.C12Clause4_holds, Fcgi.C12E.C12Clause5_holds, Fcgi.C12Inv.C12Clause6_holds, Fcgi.C12Inv.C12Clause7_holds, Fcgi.C12Fuel.C12Clause8_holds, Fcgi.C12E.C12Clause9_holds, Fcgi.C12E.C12Clause10_holds, Fcgi.C12E.C12Clause11_holds, Fcgi.C12E.C12Clause12_holds, Fcgi.C12E.C12Clause13_holds⟩
+    Fcgi.C12E.C12Clause13 ∧
+    Fcgi.C12E.C12Clause14 ∧
+    Fcgi.C12E.C12Clause15 :=
+  ⟨Fcgi.C12E.C12Clause1_holds, Fcgi.C12E.C12Clause2_holds, Fcgi.C12E.C12Clause3_holds, Fcgi.C12E.C12Clause4_holds, Fcgi.C12E.C12Clause5_holds, Fcgi.C12Inv.C12Clause6_holds, Fcgi.C12Inv.C12Clause7_holds, Fcgi.C12Fuel.C12Clause8_holds, Fcgi.C12E.C12Clause9_holds, Fcgi.C12E.C12Clause10_holds, Fcgi.C12E.C12Clause11_holds, Fcgi.C12E.C12Clause12_holds, Fcgi.C12E.C12Clause13_holds, Fcgi.C12E.C12Clause14_holds, Fcgi.C12E.C12Clause15_holds⟩
 end Fcgi.Headline
 
 
@@ -5289,8 +5366,9 @@ end Fcgi.Headline
   stream of THIS request starts delivery), Clauses 9–11 (the held-back header: not consumed, `stream_end`
   again on every later `parse` without new input, kept across consume/compress), Clauses 13–15
   (`Props/C18Held.lean`: the same under `parse` calls WITH NEW INPUT, and what happens after the caller
-  advances), Clause 16 (finding: records behind the held-back header wait unanswered).  History level ('only
-  the active stream's payload is ever delivered'): `C03SI.prefix_sim`, C02 Clause 1.
+  advances), Clauses 16–18 (`set_stream(None)`: ignore mode, permanent, releases a held-back header), Clause
+  19 (finding: records behind the held-back header wait unanswered).  History level ('only the active
+  stream's payload is ever delivered'): `C03SI.prefix_sim`, C02 Clause 1.
 
 **The conjuncts of `C18_headline`.**
 1. `C18.fromParser_stream` — the active stream starts at the first stream of the role (by definition of
@@ -5321,7 +5399,12 @@ end Fcgi.Headline
 14. `C18H.held_record_intact` — … the held-back record itself stays in place, unconsumed
 15. `C18H.advance_continues` — after `set_stream` advanced: what follows is the reference run on held-back
    record ++ input fed while held ++ input fed afterwards — nothing lost or duplicated
-16. `C18H.Example.behind_answered_at_once_full_false` — FINDING: management records arriving behind the
+16. `C18N.set_none_ign` — `set_stream(None)` from any state puts the parser in ignore mode (`Ign`)
+17. `C18N.after_none` — … and every legal history after it stays there: nothing is delivered, later
+   `set_stream(Some _)` is rejected
+18. `C18N.held_then_none_consumes` — a held-back header is RELEASED by `set_stream(None)`: the next `parse`
+   consumes it
+19. `C18H.Example.behind_answered_at_once_full_false` — FINDING: management records arriving behind the
    held-back header are NOT answered until the caller advances (the expectation "answered by the call that
    feeds them" is refuted)
 
@@ -5333,12 +5416,17 @@ end Fcgi.Headline
   `held_every_call` (any further parse calls with any input, any dest, any interleaving of consume_stream /
   compress / consume_output keep returning exactly `stream=0, end=true, output=0`, deliver nothing, keep the
   held-back h…
+* Props/C18None: `set_stream(None)` — `set_none_ign` (from every reachable state, incl. mid-record and held-
+  back, it enters ignore mode), `after_none` (every later legal history, further set_stream calls included,
+  stays there and delivers nothing), `none_set_some_rejected`, `none_parse_reports_end` (`stream=0,
+  end=true`), `none…
 
 **Not proved as theorems — carried by the differential run + oracle, or trusted.**
 * `set_stream(Some(non-input type))` hits a debug assertion: modelled as the panic it is in debug builds
-* HeldBack under `parse` with NEW input: PROVED (Clauses 13–16); not covered: advancing with
-  `set_stream(None)`; precondition of every call `new.length ≤ p.free` (the buffer fills up while waiting:
-  `held_free_shrinks`)
+* HeldBack under `parse` with NEW input: PROVED (Clauses 13–15, 19); `set_stream(None)`: covered (Clauses
+  16–18, `Props/C18None.lean`); arbitrary-bytes chunk invariance after None: OPEN
+  (`C18N.none_chunk_invariance_full`, a def only); precondition of every call `new.length ≤ p.free` (the
+  buffer fills up while waiting: `held_free_shrinks`)
 
 -/
 
@@ -5615,17 +5703,70 @@ end Fcgi.C18H
 end
 
 section
+namespace Fcgi.C18N
+open Fcgi Fcgi.Str Fcgi.Spec
+open Fcgi.Req (Request PErr)
+/-- `set_stream(None)` from any state puts the parser in ignore mode (`Ign`)  (= `Fcgi.C18N.set_none_ign`, `Props/C18None.lean`) -/
+def C18Clause16 : Prop :=
+  ∀ {p : Parser} (h : StateOK p),
+    Ign (applyOp p (.setStream none))
+
+theorem C18Clause16_holds : C18Clause16 := by
+  unfold C18Clause16
+  exact @set_none_ign
+
+end Fcgi.C18N
+end
+
+section
+namespace Fcgi.C18N
+open Fcgi Fcgi.Str Fcgi.Spec
+open Fcgi.Req (Request PErr)
+/-- … and every legal history after it stays there: nothing is delivered, later `set_stream(Some _)` is rejected  (= `Fcgi.C18N.after_none`, `Props/C18None.lean`) -/
+def C18Clause17 : Prop :=
+  ∀ {p : Parser} (hinv : SInv p) (h : StateOK p) {ops : List Op}
+    (hl : LegalAll (applyOp p (.setStream none)) ops),
+    Ign (applyOps (applyOp p (.setStream none)) ops) ∧
+    deliveredOps (applyOp p (.setStream none)) ops = []
+
+theorem C18Clause17_holds : C18Clause17 := by
+  unfold C18Clause17
+  exact @after_none
+
+end Fcgi.C18N
+end
+
+section
+namespace Fcgi.C18N
+open Fcgi Fcgi.Str Fcgi.Spec
+open Fcgi.Req (Request PErr)
+/-- a held-back header is RELEASED by `set_stream(None)`: the next `parse` consumes it  (= `Fcgi.C18N.held_then_none_consumes`, `Props/C18None.lean`) -/
+def C18Clause18 : Prop :=
+  ∀ {p : Parser} (hinv : SInv p) (h : C18H.Held p) (d : Option Nat) (r : Status),
+    let q := applyOp p (.setStream none)
+    q.raw = p.raw ∧ q.output = p.output ∧ ¬ HeldBack q ∧ q.isRecordBoundary = true ∧
+    ∃ q', parseHead q d r = .cont q' d r ∧ q'.raw.length + 8 = p.raw.length ∧ q'.state = .skip ∧
+      q'.output = p.output ∧ q'.stream = none
+
+theorem C18Clause18_holds : C18Clause18 := by
+  unfold C18Clause18
+  exact @held_then_none_consumes
+
+end Fcgi.C18N
+end
+
+section
 namespace Fcgi.C18H
 open Fcgi Fcgi.Str Fcgi.Spec
 open Fcgi.Req (Request PErr)
 namespace Example
 open Fcgi.C18
 /-- FINDING: management records arriving behind the held-back header are NOT answered until the caller advances (the expectation "answered by the call that feeds them" is refuted)  (= `Fcgi.C18H.Example.behind_answered_at_once_full_false`, `Props/C18Held.lean`) -/
-def C18Clause16 : Prop :=
+def C18Clause19 : Prop :=
   ¬ behind_answered_at_once_full
 
-theorem C18Clause16_holds : C18Clause16 := by
-  unfold C18Clause16
+theorem C18Clause19_holds : C18Clause19 := by
+  unfold C18Clause19
   exact @behind_answered_at_once_full_false
 
 end Example
@@ -5650,8 +5791,11 @@ theorem C18_headline :
     Fcgi.C18H.C18Clause13 ∧
     Fcgi.C18H.C18Clause14 ∧
     Fcgi.C18H.C18Clause15 ∧
-    Fcgi.C18H.Example.C18Clause16 :=
-  ⟨Fcgi.C18.C18Clause1_holds, Fcgi.C18.C18Clause2_holds, Fcgi.C18.C18Clause3_holds, Fcgi.C18.C18Clause4_holds, Fcgi.C18.C18Clause5_holds, Fcgi.C18.C18Clause6_holds, Fcgi.C18.C18Clause7_holds, Fcgi.C18.C18Clause8_holds, Fcgi.C18.C18Clause9_holds, Fcgi.C18.C18Clause10_holds, Fcgi.C18.C18Clause11_holds, Fcgi.C18.C18Clause12_holds, Fcgi.C18H.C18Clause13_holds, Fcgi.C18H.C18Clause14_holds, Fcgi.C18H.C18Clause15_holds, Fcgi.C18H.Example.C18Clause16_holds⟩
+    Fcgi.C18N.C18Clause16 ∧
+    Fcgi.C18N.C18Clause17 ∧
+    Fcgi.C18N.C18Clause18 ∧
+    Fcgi.C18H.Example.C18Clause19 :=
+  ⟨Fcgi.C18.C18Clause1_holds, Fcgi.C18.C18Clause2_holds, Fcgi.C18.C18Clause3_holds, Fcgi.C18.C18Clause4_holds, Fcgi.C18.C18Clause5_holds, Fcgi.C18.C18Clause6_holds, Fcgi.C18.C18Clause7_holds, Fcgi.C18.C18Clause8_holds, Fcgi.C18.C18Clause9_holds, Fcgi.C18.C18Clause10_holds, Fcgi.C18.C18Clause11_holds, Fcgi.C18.C18Clause12_holds, Fcgi.C18H.C18Clause13_holds, Fcgi.C18H.C18Clause14_holds, Fcgi.C18H.C18Clause15_holds, Fcgi.C18N.C18Clause16_holds, Fcgi.C18N.C18Clause17_holds, Fcgi.C18N.C18Clause18_holds, Fcgi.C18H.Example.C18Clause19_holds⟩
 end Fcgi.Headline
 
 
